@@ -254,7 +254,7 @@ def check_funcs(case):
     Bs = onp.array([(a / onp.abs(onp.linalg.eigvalsh(a)).max()) * case['expscale'] * 3.0 - 1.5 * case['expscale'] * onp.eye(3)
                     for a in As])
     AsR = onp.einsum('nij,njk,nlk->nil', Qs, As, Qs)
-    AsR = 0.5 * (AsR + onp.transpose(AsR, (0, 2, 1)))
+    AsR = onp.array([gen.snap(a) for a in 0.5 * (AsR + onp.transpose(AsR, (0, 2, 1)))])      # dynamic range policy of gen.snap
     for mode in ('single', 'batched'):
         o = _funcs_outputs(mode, As, Bs, AsR, m)
         for i, t in enumerate(case['tensors']):
